@@ -55,15 +55,14 @@ a") /\
   literal_ok nl_sp_a = false /\ literal_gap nl_sp_a = true.
 Proof. repeat split; vm_compute; reflexivity. Qed.
 
-(* F4: the string "..." as the root value (column 0) is left plain: a document
-   end marker.  As a key ("...: 1") the text is a plain scalar for YAML, but not
-   for the implementation's scanner (deviation_examples below). *)
+(* C11-dots-root / C11-reader-dots (fixed): a string starting with the document
+   end marker is double quoted in every position and reads back *)
 Definition dots : str := s_ "...".
-Lemma style_choice_refuted_dots :
-  ex_choose false false dots = Plain /\ ex_choose true false dots = Plain /\
-  style_gap ex_print true Plain dots = true /\
-  plain_ok true dots = false /\
-  ex_read 0 true true val_suffix (ex_doc Plain 2 dots val_suffix) = None.
+Lemma dots_quoted :
+  ex_choose false false dots = Double /\ ex_choose true false dots = Double /\
+  ex_choose true false (s_ "...a") = Double /\ ex_choose false false (s_ "... x") = Double /\
+  ex_read 0 true true val_suffix (ex_doc Double 2 dots val_suffix) = Some dots /\
+  ex_read 0 false true key_suffix (ex_doc Double 2 (s_ "...a") key_suffix) = Some (s_ "...a").
 Proof. repeat split; vm_compute; reflexivity. Qed.
 
 (* "#" followed by U+00A0: goccy quotes with single quotes and Go escapes *)
